@@ -54,6 +54,12 @@ pub fn check_golden(w: &mut World) {
             w.stats.check("golden");
             w.stats.probe("golden-objects-used");
             for (what, detail) in fails {
+                if what.contains("gets-id-of-live-attribute") || what.contains("reuses-id") {
+                    w.fail(Class::IdUnique, format!("golden/{what}"), detail.clone());
+                }
+                if what.contains("classic-encapsulation") {
+                    w.fail(Class::Flavour, format!("golden/{what}"), detail.clone());
+                }
                 w.fail(Class::Reload, format!("golden/{what}"), detail);
             }
             w.outcomes.push("golden".into());
@@ -262,6 +268,61 @@ fn run(dir: &str) -> Result<Vec<(String, String)>, String> {
             }
         } else {
             fails.push(("golden-structure-add-attribute-error".into(), String::new()));
+        }
+    }
+    // ---- the legacy master key whose ids have a gap ----
+    if let Ok(gb) = rd("gap_msk.bin") {
+        match MasterSecretKey::deserialize(&gb) {
+            Err(e) => fails.push(("gap-msk-does-not-deserialize".into(), e.to_string())),
+            Ok(mut gm) => {
+                let ap = |s: &str| AccessPolicy::parse(s).map_err(|e| e.to_string());
+                let live: Vec<u64> = gm.access_structure.serialize().ok().and_then(|b| wire::parse_structure(&b).ok()).map(|s| s.all_ids()).unwrap_or_default();
+                if gm.access_structure.add_attribute(QualifiedAttribute::new("G", "gnew"), EncryptionHint::Hybridized, None).is_err() {
+                    fails.push(("gap-structure-add-attribute-error".into(), String::new()));
+                } else {
+                    let new_id = gm.access_structure.serialize().ok().and_then(|b| wire::parse_structure(&b).ok()).and_then(|s| s.attr_id("G", "gnew"));
+                    if let Some(id) = new_id {
+                        if live.contains(&id) {
+                            fails.push(("legacy-structure-new-attribute-gets-id-of-live-attribute".into(), format!("id {id}, live ids {:?}", live)));
+                        }
+                    }
+                    match cc.update_msk(&mut gm) {
+                        Err(e) => fails.push(("gap-msk-update-error".into(), e.to_string())),
+                        Ok(gmpk) => {
+                            // the new attribute is its own right: hybridized, and disjoint from g2
+                            let k2 = UserSecretKey::deserialize(&rd("gap_usk2.bin")?).map_err(|e| e.to_string())?;
+                            if let Ok((_, e_new)) = cc.encaps(&gmpk, &ap("G::gnew")?) {
+                                if let Ok(b) = e_new.serialize() {
+                                    if let Ok(we) = wire::parse_enc(&b) {
+                                        if !we.hybrid {
+                                            fails.push(("legacy-structure-new-hybridized-attribute-gets-classic-encapsulation".into(), String::new()));
+                                        }
+                                    }
+                                }
+                                if let Ok(Some(_)) = cc.decaps(&k2, &e_new) {
+                                    fails.push(("legacy-structure-old-key-opens-new-attribute".into(), String::new()));
+                                }
+                            } else {
+                                fails.push(("gap-mpk-encaps-error".into(), String::new()));
+                            }
+                            match cc.generate_user_secret_key(&mut gm, &ap("G::gnew")?) {
+                                Ok(knew) => {
+                                    if let Ok(e2) = XEnc::deserialize(&rd("gap_enc2.bin")?) {
+                                        if let Ok(Some(_)) = cc.decaps(&knew, &e2) {
+                                            fails.push(("legacy-structure-new-attribute-key-opens-old-attribute".into(), String::new()));
+                                        }
+                                        match cc.decaps(&k2, &e2) {
+                                            Ok(Some(s)) if s.to_vec() == rd("gap_secret2.bin")? => {}
+                                            _ => fails.push(("gap-key-no-longer-opens-gap-encapsulation".into(), String::new())),
+                                        }
+                                    }
+                                }
+                                Err(e) => fails.push(("gap-msk-keygen-error".into(), e.to_string())),
+                            }
+                        }
+                    }
+                }
+            }
         }
     }
     Ok(fails)
